@@ -525,10 +525,10 @@ static Plan gen_iofault(uint64_t seed, const Op &opts) {
         int na = (int) opts.geti("attempts", 40);
         for (int i = 0; i < na; i++) {
             Op o; o.kind = "op";
-            int f = (int) r.below(10);
+            int f = (int) r.below(12);
             // no read-error (EIO) fault: the property quantifies over prefixes and mistyped input only, and a read error inside a
             // text section makes the FILE* parser spin forever (feof() stays false) - observed, recorded in DESIGN.md, not judged
-            const char *fk = f < 5 ? "trunc" : f < 8 ? "flip" : "subst";
+            const char *fk = f < 5 ? "trunc" : f < 8 ? "flip" : f < 10 ? "subst" : "retitle";
             o.set("k", fk).seti("transport", (int) r.below(2)).setu("at", r.next()).seti("val", (int) r.below(6)).seti("as", (int) r.below(K_NKINDS)).setu("rseed", r.next());
             o.seti("boundary", r.bern(0.5) ? 1 : 0);
             p.ops.push_back(o);
@@ -649,6 +649,29 @@ static void exec_iofault(const Plan &p, RunResult &r) {
                 r.faults.add((tag && !tags.empty()) ? "F-flip-tag" : "F-flip-title");
                 judge_attempt(r, orig, orig, mod, rc, fmt("F-flip byte %zu (%s) %#x->%#x", pos, (tag && !tags.empty()) ? "type tag" : "title", x, y), false, (int) oi);
                 fh.u64(pos); fh.u64(y);
+            } else if (k == "retitle") {
+                // a section title rewritten CONSISTENTLY in its BEGIN and END lines (every line carrying that word): the section is
+                // well formed but is not of the requested type any more (letter case, transposition, one other letter)
+                if (titles.empty()) continue;
+                auto &t0 = titles[(at >> 1) % titles.size()];
+                std::string word = full.substr(t0.first, t0.second - t0.first), nw = word;
+                size_t li = (size_t) ((at >> 9) % word.size());
+                auto togg = [](char c) { return (char) (isalpha((unsigned char) c) ? (c ^ 0x20) : c); };
+                switch (o.geti("val")) {
+                    case 0: for (auto &c : nw) c = (char) tolower((unsigned char) c); break;
+                    case 1: for (auto &c : nw) c = (char) toupper((unsigned char) c); break;
+                    case 2: nw[li] = togg(nw[li]); break;
+                    case 3: if (word.size() > 1) { size_t a = li % (word.size() - 1); std::swap(nw[a], nw[a + 1]); } break;
+                    case 4: nw[li] = (char) (isalpha((unsigned char) nw[li]) ? ((nw[li] & 0x20) | ('A' + ((nw[li] & 0x1f) % 26))) : 'X'); break;
+                    default: nw[0] = togg(nw[0]);
+                }
+                if (nw == word) for (auto &c : nw) c = togg(c);
+                if (nw == word) continue;
+                std::string mod = full; int nrew = 0;
+                for (auto &t : titles) if (t.second - t.first == word.size() && full.compare(t.first, word.size(), word) == 0) { mod.replace(t.first, word.size(), nw); nrew++; }
+                r.faults.add("F-retitle");
+                judge_attempt(r, orig, orig, mod, rc, fmt("F-retitle %s -> %s in %d BEGIN/END lines", word.c_str(), nw.c_str(), nrew), false, (int) oi);
+                fh.str(nw);
             } else if (k == "subst") {
                 // bytes of this object delivered to the importer of another type whose leading title/tag differs
                 int as = (int) o.geti("as");
